@@ -404,10 +404,12 @@ class ODE:
     @cached_property
     def parameters(self) -> tuple[atoms.Parameter, ...]:
         """Get all parameters in the ODE"""
-        parameters: set[atoms.Parameter] = set()
+        # A parameter declared (identically) in several components is one parameter
+        parameters: dict[str, atoms.Parameter] = {}
         for component in self.components:
-            parameters |= component.parameters
-        return tuple(sorted(parameters, key=lambda x: x.name))
+            for p in sorted(component.parameters, key=lambda x: x.name):
+                parameters.setdefault(p.name, p)
+        return tuple(sorted(parameters.values(), key=lambda x: x.name))
 
     @property
     def num_parameters(self) -> int:
